@@ -10,7 +10,7 @@ if case.get("kind") == "compose":
     for name, nodes in [(c["name"], c["tpl"]) for c in prog["comps"]] + [("page", prog["page"]["tpl"])]:
         print("  ", name, "FLAT:", pg.p_nodes(nodes))
         if any(n["t"] in ("block", "include") for n in pgstrat.walk(nodes)):
-            src, f = c10.family_sources(nodes, "f" + name, bool(case.get("mid", {}).get(name))); print("      =>", src); [print("        ", k, ":", v) for k, v in f.items()]
+            src, f = c10.family_sources(nodes, "f" + name, bool(case.get("mid", {}).get(name)), bool(case.get("noext", {}).get(name))); print("      =>", src); [print("        ", k, ":", v) for k, v in f.items()]
     print("   ctx", prog["page"]["ctx"])
 else:
     for k, v in case["files"].items(): print("  FILE", k, repr(v))
